@@ -31,19 +31,33 @@
       intermediate statements `adj_line_error`, `presented_sum_adj_within_one_unit`,
       `presented_total_adj_within_one_unit`, `presented_tax_within_one_unit`,
       `presented_payment_within_one_unit` need only the part of the class they use.
+    * prices including one tax category (`prices_include`; Proofs/CalcErrorInc.lean):
+      class `DocCI` ⊇ `DocC` (the included category not retained, its percentages ≥ 0):
+      `calc_eq_spec_included` — all ten totals, `tax_included` among them, with one
+      more rounding point per row that carries the included category (the division
+      of `removeIncludedTaxes`) and the rate groups of the included category;
+      `included_explicit_bound`, `precise_error_lt_unit_included`;
+    * the rows of the tax summary as presented figures (`calc_tax_category_rows_spec`:
+      category amount and surcharge; `calc_tax_group_rows_spec`: group base, amount,
+      surcharge — Proofs/CalcErrorInc.lean, Proofs/CalcErrorGroups.lean);
+    * tighter, rational weights with the actual percentages instead of their bound
+      100 % (Proofs/CalcErrorTight.lean): `calc_eq_spec_tight`, `tight_explicit_bound`,
+      `precise_error_lt_unit_tight`.
   Not proved (exercised by the correspondence and the error-bound oracle only):
-    the same bound outside `DocC`: lines with a breakdown, foreign-currency items and
+    the same bound outside `DocCI`: lines with a breakdown, foreign-currency items and
     rate × quantity charges (for these it is false: the three known findings), bases,
-    fixed amounts and roundings finer than currency + 2 decimals, included taxes
-    (`prices_include`), the `currency` rule.  Of the presented rows only the line
-    totals, the document discount / charge rows, the advances and the due dates are
-    covered (`calc_lines_spec`, `calc_adj_rows_spec`, `calc_payment_rows_spec`), not
-    the line sums, the line discount / charge rows and the rows of the tax summary.
-  The class is decidable: `Spec.C01.inDocC` (sound by `inDocC_sound`), evaluated by
-  the driver; the harness holds the real output of every in-class document to
-  `decided_class_bound`.
+    fixed amounts and roundings finer than currency + 2 decimals, an included category
+    with a negative percentage, the `currency` rule.  Of the presented rows the line
+    sums and the line discount / charge rows are not stated.
+  The classes are decidable: `Spec.C01.inDocC` (sound by `inDocC_sound`) and
+  `Spec.C01.inDocI` (`inDocI_sound`), evaluated by the driver; the harness holds the
+  real output of every in-class document to `decided_class_bound`,
+  `decided_class_bound_included` and the tighter `decided_class_bound_tight`.
 -/
 import GoblVerif.Proofs.CalcErrorMore
+import GoblVerif.Proofs.CalcErrorInc
+import GoblVerif.Proofs.CalcErrorGroups
+import GoblVerif.Proofs.CalcErrorTight
 import GoblVerif.Spec.C01
 import GoblVerif.Generated.CalcFacts
 import GoblVerif.Proofs.CalcError
@@ -1021,6 +1035,518 @@ example : DocC retEx dueDoc ∧ dueDoc.hasPayment = true ∧ (∀ x ∈ dueDoc.d
   rcases hx with rfl | rfl
   · exact Or.inl ⟨_, rfl, rfl, by norm_num [Amount.toRat, pow10]⟩
   · exact Or.inr (Or.inl rfl)
+
+/-! ## prices that include one tax category (`prices_include`)
+
+`removeIncludedTaxes` divides the prepared total (currency + 2 decimals at least) of every row that
+carries a combo of the included category with a percentage by 1 + that percentage: one more rounding
+point for that row (`incB`), and a contraction of the error it already carried (percentage ≥ 0).
+`tax_included` is the unrounded amount of the included category: its rounding points are the rate
+groups of that category (`Gk = incGroupsT d.includes t`) and it carries the rows' errors once per combo
+of the category on the row (`kN`); it is subtracted from `total`.
+
+Weights (`Spec/C01.lean`): `rowsWL L inc d = Σ_lines (lineW l + incB)·L l.taxes + Σ_{document
+discounts, charges} (1 + sumW + incB)·L x.taxes`; `taxWI d G = G + rowsWL comboW`,
+`incWI d Gk = Gk + rowsWL kN`, `totalWI = totalW + incWI`, `twtWI = totalWI + taxWI`,
+`advWI = #advances·(1 + twtWI)`, `dueWI = twtWI + advWI`.  Without an included category `incB = kN = 0`
+and these are the weights of `calc_eq_spec`. -/
+
+/-- **calc_eq_spec_included** — the statement of `calc_eq_spec` for the class `DocCI`: as `DocC`, but
+`d.includes` may name a tax category, which must not be retained (the calculation fails otherwise:
+`CalcErr.retainedIncluded`, no `out`) and whose percentages must not be negative.  Every presented
+total, `tax_included` among them, is the half-away rounding at currency precision of a working value
+within weight × half a unit of the working precision of `Spec.C01.exactQ d` (whose row totals have
+the included tax taken out by an exact division). -/
+theorem calc_eq_spec_included (ret : String → Bool) (d : Doc) (out : Out) (t : Totals) (hd : DocCI ret d)
+    (hcalc : calculate exactOps d = .ok out) (ht : out.totals = some t) :
+    ∃ w : Totals, t = roundTotals exactOps d.c w ∧
+      (presents d.c t.sum w.sum.toRat ∧ presents d.c t.total w.total.toRat ∧
+       presents d.c t.tax w.tax.toRat ∧ presents d.c t.totalWithTax w.totalWithTax.toRat ∧
+       presents d.c t.payable w.payable.toRat ∧
+       (∀ x, t.taxIncluded = some x → ∃ y, w.taxIncluded = some y ∧ presents d.c x y.toRat) ∧
+       (∀ x, t.discount = some x → ∃ y, w.discount = some y ∧ presents d.c x y.toRat) ∧
+       (∀ x, t.charge = some x → ∃ y, w.charge = some y ∧ presents d.c x y.toRat) ∧
+       (∀ x, t.advances = some x → ∃ y, w.advances = some y ∧ presents d.c x y.toRat) ∧
+       (∀ x, t.due = some x → ∃ y, w.due = some y ∧ presents d.c x y.toRat)) ∧
+      (|w.sum.toRat - (exactQ d).sum| ≤ (sumW d.lines : ℚ) * halfUlp (d.c + 2) ∧
+       |optQ w.discount - (exactQ d).discount| ≤ (adjW (sumW d.lines) d.discounts.length : ℚ) * halfUlp (d.c + 2) ∧
+       |optQ w.charge - (exactQ d).charge| ≤ (adjW (sumW d.lines) d.charges.length : ℚ) * halfUlp (d.c + 2) ∧
+       |optQ w.taxIncluded - (exactQ d).taxIncluded| ≤
+         (incWI d (incGroupsT d.includes t) : ℚ) * halfUlp (d.c + 2) ∧
+       |w.total.toRat - (exactQ d).total| ≤ (totalWI d (incGroupsT d.includes t) : ℚ) * halfUlp (d.c + 2) ∧
+       |w.tax.toRat - (exactQ d).tax| ≤ (taxWI d (groupsT t) : ℚ) * halfUlp (d.c + 2) ∧
+       |w.totalWithTax.toRat - (exactQ d).totalWithTax| ≤
+         (twtWI d (groupsT t) (incGroupsT d.includes t) : ℚ) * halfUlp (d.c + 2) ∧
+       |w.payable.toRat - (exactQ d).payable| ≤
+         (twtWI d (groupsT t) (incGroupsT d.includes t) : ℚ) * halfUlp (d.c + 2) ∧
+       |optQ w.advances - (exactQ d).advances| ≤
+         (advWI d (groupsT t) (incGroupsT d.includes t) : ℚ) * halfUlp (d.c + 2) ∧
+       (∀ y, w.due = some y → |y.toRat - (exactQ d).due| ≤
+         (dueWI d (groupsT t) (incGroupsT d.includes t) : ℚ) * halfUlp (d.c + 2))) := by
+  obtain ⟨p, tx, hpre, htx, _, htr⟩ := calculate_unpack d out t hcalc ht
+  have hG : groupsT t = groupsOf tx.cats := by rw [htr]; exact groupsT_round d p tx
+  have hGk : incGroupsT d.includes t = incGroupsOf d.includes tx.cats := by rw [htr]; exact groupsT_round_inc d p tx
+  have hw := working_spec_inc d p tx hd hpre htx
+  have hopt : ∀ (o : Option Amount) (x : Amount), o.map (exactOps.rescale · d.c) = some x →
+      ∃ y, o = some y ∧ presents d.c x y.toRat := by
+    intro o x hx
+    simp only [Option.map_eq_some_iff] at hx
+    obtain ⟨y, hy, rfl⟩ := hx
+    exact ⟨y, hy, presents_rescale d.c y⟩
+  refine ⟨rawTotals exactOps d p tx, htr, ?_, ?_⟩
+  · rw [htr]
+    exact ⟨presents_rescale _ _, presents_rescale _ _, presents_rescale _ _, presents_rescale _ _,
+      presents_rescale _ _, hopt _, hopt _, hopt _, hopt _, hopt _⟩
+  · rw [hG, hGk]; exact hw
+
+/-- **the explicit bound with an included category** — for a document of the class `DocCI`, every
+presented total (`tax_included` too) is within half a minor unit plus `dueWI` half-units of the
+working precision of the exact rational value; in particular (`N = 99`) less than one minor unit
+when `dueWI d G Gk < 100` -/
+theorem included_explicit_bound (ret : String → Bool) (d : Doc) (out : Out) (t : Totals) (hd : DocCI ret d)
+    (hcalc : calculate exactOps d = .ok out) (ht : out.totals = some t) :
+    let B := halfUlp d.c + (dueWI d (groupsT t) (incGroupsT d.includes t) : ℚ) * halfUlp (d.c + 2)
+    |t.sum.toRat - (exactQ d).sum| ≤ B ∧ |t.total.toRat - (exactQ d).total| ≤ B ∧
+    |t.tax.toRat - (exactQ d).tax| ≤ B ∧ |t.totalWithTax.toRat - (exactQ d).totalWithTax| ≤ B ∧
+    |t.payable.toRat - (exactQ d).payable| ≤ B ∧
+    (∀ x, t.taxIncluded = some x → |x.toRat - (exactQ d).taxIncluded| ≤ B) ∧
+    (∀ x, t.discount = some x → |x.toRat - (exactQ d).discount| ≤ B) ∧
+    (∀ x, t.charge = some x → |x.toRat - (exactQ d).charge| ≤ B) ∧
+    (∀ x, t.advances = some x → |x.toRat - (exactQ d).advances| ≤ B) ∧
+    (∀ x, t.due = some x → |x.toRat - (exactQ d).due| ≤ B) := by
+  intro B
+  obtain ⟨w, htr, _, b1, b2, b3, bi, b4, b5, b6, b7, b8, b9⟩ := calc_eq_spec_included ret d out t hd hcalc ht
+  set G := groupsT t
+  set Gk := incGroupsT d.includes t
+  have m1 : twtWI d G Gk ≤ dueWI d G Gk := Nat.le_add_right _ _
+  have m2 : advWI d G Gk ≤ dueWI d G Gk := Nat.le_add_left _ _
+  have m3 : totalWI d Gk ≤ twtWI d G Gk := Nat.le_add_right _ _
+  have m4 : taxWI d G ≤ twtWI d G Gk := Nat.le_add_left _ _
+  have m3' : totalW d ≤ totalWI d Gk := Nat.le_add_right _ _
+  have m8 : incWI d Gk ≤ totalWI d Gk := Nat.le_add_left _ _
+  have m5 : sumW d.lines ≤ totalW d := by
+    unfold totalW
+    have : sumW d.lines ≤ sumW d.lines * (1 + d.discounts.length + d.charges.length) :=
+      Nat.le_mul_of_pos_right _ (by omega)
+    omega
+  have m6 : adjW (sumW d.lines) d.discounts.length ≤ totalW d := by
+    unfold totalW adjW
+    have : sumW d.lines * (1 + d.discounts.length + d.charges.length) =
+        sumW d.lines + d.discounts.length * sumW d.lines + sumW d.lines * d.charges.length := by ring
+    rw [this, Nat.mul_add, Nat.mul_one]
+    omega
+  have m7 : adjW (sumW d.lines) d.charges.length ≤ totalW d := by
+    unfold totalW adjW
+    have : sumW d.lines * (1 + d.discounts.length + d.charges.length) =
+        sumW d.lines + sumW d.lines * d.discounts.length + d.charges.length * sumW d.lines := by ring
+    rw [this, Nat.mul_add, Nat.mul_one]
+    omega
+  have h0 := halfUlp_nonneg (d.c + 2)
+  have hs : ∀ (a : Amount) (q : ℚ) (n : ℕ), n ≤ dueWI d G Gk → |a.toRat - q| ≤ (n : ℚ) * halfUlp (d.c + 2) →
+      |(a.rescaleX d.c).toRat - q| ≤ B := by
+    intro a q n hle h
+    have h1 := rescaleX_err a d.c
+    have hn : (n : ℚ) ≤ (dueWI d G Gk : ℚ) := by exact_mod_cast hle
+    have h2 := mul_le_mul_of_nonneg_right hn h0
+    have e : (a.rescaleX d.c).toRat - q = ((a.rescaleX d.c).toRat - a.toRat) + (a.toRat - q) := by ring
+    rw [e]
+    refine le_trans (abs_add_le _ _) ?_
+    show _ ≤ halfUlp d.c + (dueWI d G Gk : ℚ) * halfUlp (d.c + 2)
+    linarith
+  have ho : ∀ (o : Option Amount) (q : ℚ) (n : ℕ), n ≤ dueWI d G Gk → |optQ o - q| ≤ (n : ℚ) * halfUlp (d.c + 2) →
+      ∀ x, o.map (exactOps.rescale · d.c) = some x → |x.toRat - q| ≤ B := by
+    intro o q n hle h x hx
+    simp only [Option.map_eq_some_iff] at hx
+    obtain ⟨y, hy, rfl⟩ := hx
+    rw [hy] at h
+    exact hs y q n hle h
+  rw [htr]
+  refine ⟨hs _ _ _ (by omega) b1, hs _ _ _ (by omega) b4, hs _ _ _ (by omega) b5, hs _ _ _ (by omega) b6,
+    hs _ _ _ (by omega) b7, ho _ _ _ (by omega) bi, ho _ _ _ (by omega) b2, ho _ _ _ (by omega) b3,
+    ho _ _ _ (by omega) b8, ?_⟩
+  intro x hx
+  have hx' : w.due.map (exactOps.rescale · d.c) = some x := hx
+  simp only [Option.map_eq_some_iff] at hx'
+  obtain ⟨y, hy, rfl⟩ := hx'
+  exact hs y _ _ (Nat.le_refl _) (b9 y hy)
+
+/-- the same with the hypotheses the model driver evaluates (`Spec.C01`: `inDocI`, `docWeightI`);
+the check holds the real library's output of every generated document of this class to it (counter
+`error-bound:in-proved-class-included`) -/
+theorem decided_class_bound_included (d : Doc) (out : Out) (t : Totals) (hcls : inDocI d = true)
+    (hcalc : calculate exactOps d = .ok out) (ht : out.totals = some t) :
+    let B := halfUlp d.c + (docWeightI d : ℚ) * halfUlp (d.c + 2)
+    |t.sum.toRat - (exactQ d).sum| ≤ B ∧ |t.total.toRat - (exactQ d).total| ≤ B ∧
+    |t.tax.toRat - (exactQ d).tax| ≤ B ∧ |t.totalWithTax.toRat - (exactQ d).totalWithTax| ≤ B ∧
+    |t.payable.toRat - (exactQ d).payable| ≤ B ∧
+    (∀ x, t.taxIncluded = some x → |x.toRat - (exactQ d).taxIncluded| ≤ B) ∧
+    (∀ x, t.discount = some x → |x.toRat - (exactQ d).discount| ≤ B) ∧
+    (∀ x, t.charge = some x → |x.toRat - (exactQ d).charge| ≤ B) ∧
+    (∀ x, t.advances = some x → |x.toRat - (exactQ d).advances| ≤ B) ∧
+    (∀ x, t.due = some x → |x.toRat - (exactQ d).due| ≤ B) := by
+  rw [docWeightI_eq d out t hcalc ht]
+  exact included_explicit_bound (retOf d) d out t (inDocI_sound d hcls) hcalc ht
+
+/-- **precise_error_lt_unit_included** — class `DocCI`, largest weight below 100: every presented
+total, `tax_included` too, is less than one minor currency unit from the exact rational value -/
+theorem precise_error_lt_unit_included (ret : String → Bool) (d : Doc) (out : Out) (t : Totals) (hd : DocCI ret d)
+    (hn : dueWI d (groupsT t) (incGroupsT d.includes t) < 100)
+    (hcalc : calculate exactOps d = .ok out) (ht : out.totals = some t) :
+    let U := 1 / ((pow10 d.c : ℤ) : ℚ)
+    |t.sum.toRat - (exactQ d).sum| < U ∧ |t.total.toRat - (exactQ d).total| < U ∧
+    |t.tax.toRat - (exactQ d).tax| < U ∧ |t.totalWithTax.toRat - (exactQ d).totalWithTax| < U ∧
+    |t.payable.toRat - (exactQ d).payable| < U ∧
+    (∀ x, t.taxIncluded = some x → |x.toRat - (exactQ d).taxIncluded| < U) ∧
+    (∀ x, t.discount = some x → |x.toRat - (exactQ d).discount| < U) ∧
+    (∀ x, t.charge = some x → |x.toRat - (exactQ d).charge| < U) ∧
+    (∀ x, t.advances = some x → |x.toRat - (exactQ d).advances| < U) ∧
+    (∀ x, t.due = some x → |x.toRat - (exactQ d).due| < U) := by
+  intro U
+  have hb := included_explicit_bound ret d out t hd hcalc ht
+  simp only at hb
+  have hp := p10q_pos d.c
+  have hp2 : ((pow10 (d.c + 2) : ℤ) : ℚ) = ((pow10 d.c : ℤ) : ℚ) * 100 := by
+    unfold pow10; push_cast; ring
+  have hu2 : halfUlp (d.c + 2) = 1 / (200 * ((pow10 d.c : ℤ) : ℚ)) := by
+    unfold halfUlp; rw [hp2]; ring
+  have hu : halfUlp d.c = 1 / (2 * ((pow10 d.c : ℤ) : ℚ)) := rfl
+  have hlt : halfUlp d.c + (dueWI d (groupsT t) (incGroupsT d.includes t) : ℚ) * halfUlp (d.c + 2) < U := by
+    have hN : (dueWI d (groupsT t) (incGroupsT d.includes t) : ℚ) ≤ 99 := by
+      have : dueWI d (groupsT t) (incGroupsT d.includes t) ≤ 99 := by omega
+      exact_mod_cast this
+    have hpos200 : (0 : ℚ) ≤ 1 / (200 * ((pow10 d.c : ℤ) : ℚ)) := by positivity
+    have h1 := mul_le_mul_of_nonneg_right hN hpos200
+    rw [hu, hu2]
+    have : 1 / (2 * ((pow10 d.c : ℤ) : ℚ)) + 99 * (1 / (200 * ((pow10 d.c : ℤ) : ℚ))) < U := by
+      show _ < 1 / ((pow10 d.c : ℤ) : ℚ)
+      rw [div_add' _ _ _ (by positivity), ← sub_pos]
+      field_simp
+      ring_nf
+      positivity
+    linarith
+  obtain ⟨a1, a2, a3, a4, a5, a6, a7, a8, a9, a10⟩ := hb
+  exact ⟨lt_of_le_of_lt a1 hlt, lt_of_le_of_lt a2 hlt, lt_of_le_of_lt a3 hlt, lt_of_le_of_lt a4 hlt,
+    lt_of_le_of_lt a5 hlt, fun x hx => lt_of_le_of_lt (a6 x hx) hlt, fun x hx => lt_of_le_of_lt (a7 x hx) hlt,
+    fun x hx => lt_of_le_of_lt (a8 x hx) hlt, fun x hx => lt_of_le_of_lt (a9 x hx) hlt,
+    fun x hx => lt_of_le_of_lt (a10 x hx) hlt⟩
+
+/-- prices including VAT: 3 × 12.10 gross at 21 % with a 12.5 % line discount, 1.2 × 2.222 gross at
+10.5 % (and a retained 15 %), an exempt line 2 × 0.335, a fixed document discount of 0.50 gross at
+21 %; an advance of 30 % -/
+def incDoc : Doc :=
+  { cur := "EUR", c := 2, rule := .precise, includes := some "VAT",
+    lines := [{ qty := ⟨3, 0⟩, item := some { price := some ⟨1210, 2⟩, cur := "", sub := 2, alts := [] },
+                discounts := [{ percent := some ⟨⟨125, 3⟩⟩, base := none, amount := ⟨0, 0⟩, rate := none, quantity := none }],
+                charges := [], breakdown := [],
+                taxes := [{ cat := "VAT", country := "", key := "standard", percent := some ⟨⟨21, 2⟩⟩,
+                            surcharge := none, ext := "", retained := false }] },
+              { qty := ⟨12, 1⟩, item := some { price := some ⟨2222, 3⟩, cur := "", sub := 2, alts := [] },
+                discounts := [], charges := [], breakdown := [],
+                taxes := [{ cat := "VAT", country := "", key := "reduced", percent := some ⟨⟨105, 3⟩⟩,
+                            surcharge := none, ext := "", retained := false },
+                          { cat := "IRPF", country := "", key := "pro", percent := some ⟨⟨15, 2⟩⟩,
+                            surcharge := none, ext := "", retained := true }] },
+              { qty := ⟨2, 0⟩, item := some { price := some ⟨335, 3⟩, cur := "", sub := 2, alts := [] },
+                discounts := [], charges := [], breakdown := [],
+                taxes := [{ cat := "VAT", country := "", key := "exempt", percent := none,
+                            surcharge := none, ext := "", retained := false }] }],
+    discounts := [{ percent := none, base := none, amount := ⟨50, 2⟩,
+                    taxes := [{ cat := "VAT", country := "", key := "standard", percent := some ⟨⟨21, 2⟩⟩,
+                                surcharge := none, ext := "", retained := false }] }],
+    charges := [], rates := [], rounding := none, hasPayment := true,
+    advances := [{ percent := some ⟨⟨30, 2⟩⟩, amount := ⟨0, 0⟩ }], dues := [] }
+
+/-- non-vacuity of the included-tax theorems: `incDoc` is in the decided class (so `DocCI (retOf incDoc)
+incDoc` holds by `inDocI_sound`), two VAT groups with a percentage and one exempt (`G = 4` with the
+retained group, `Gk = 3`), largest weight 97 < 100 (`taxWI` = 4 + 16 = 20, `incWI` = 3 + 14 = 17,
+`totalW` = 11).  Exact values: sum 31.7625 + 2.6664 + 0.67 =
+35.0989 (presented 35.10), discount 0.50, included VAT (31.7625 − 0.50)·0.21/1.21 + 2.6664·0.105/1.105 =
+5.67912… (presented 5.68), total 28.91978… (28.92), tax 5.67912… − 2.6664/1.105·0.15 = 5.31717… (5.32),
+total with tax 34.23695… (34.24), advance 10.27108… (10.27), due 23.96586… (23.97) -/
+example : inDocI incDoc = true ∧ inDocC incDoc = false ∧
+    ((calculate exactOps incDoc).toOption.bind (·.totals)).map
+      (fun t => (groupsT t, incGroupsT incDoc.includes t, dueWI incDoc (groupsT t) (incGroupsT incDoc.includes t))) =
+      some (4, 3, 97) ∧
+    ((calculate exactOps incDoc).toOption.bind (·.totals)).map (fun t => (t.sum, t.discount, t.taxIncluded, t.total)) =
+      some (⟨3510, 2⟩, some ⟨50, 2⟩, some ⟨568, 2⟩, ⟨2892, 2⟩) ∧
+    ((calculate exactOps incDoc).toOption.bind (·.totals)).map (fun t => (t.tax, t.totalWithTax, t.advances, t.due)) =
+      some (⟨532, 2⟩, ⟨3424, 2⟩, some ⟨1027, 2⟩, some ⟨2397, 2⟩) := by
+  refine ⟨by decide, by decide, by decide, by decide, by decide⟩
+
+/-! ## the rows of the tax summary as presented figures
+
+For a document of the class `DocTI` (`DocCI` without the conditions on rounding and advances; with or
+without an included category).  The exact quantities are built from the exact rows of
+`Spec.C01.exactQ` (`exactRowsW`: exact line totals, exact document discounts negated, exact document
+charges, each with its combos; the included tax taken out by an exact division, `remQ`):
+`catExactQ selP d k` = Σ rows Σ combos of category `k`, row × percentage (for the included category
+this is `(exactQ d).taxIncluded`: `catExactQ_included`), `catExactQ selS d k` the same with the
+surcharge percentages, `grpExactQ d k key` = Σ rows, once per combo of category `k` and group key
+`key` (extensions, country, percentage, surcharge percentage: `Spec.C02.keyOfRate`). -/
+
+/-- every category row: `amount` is the half-away rounding at currency precision of the working
+amount (kept as `precise`), which is within (number of rate groups of the category + the rows'
+carried weight `rowsWL kN`) half-units of the working precision of the exact category amount; the
+category surcharge likewise against the exact surcharge -/
+theorem calc_tax_category_rows_spec (ret : String → Bool) (d : Doc) (out : Out) (t : Totals) (hd : DocTI ret d)
+    (hcalc : calculate exactOps d = .ok out) (ht : out.totals = some t)
+    (tx : TaxTotal) (htx : t.taxes = some tx) (k : String) (ct : CatTotal)
+    (hf : tx.cats.find? (fun ct => ct.code == k) = some ct) :
+    presents d.c ct.amount ct.precise.toRat ∧
+    |ct.precise.toRat - catExactQ selP d k| ≤
+      ((ct.rates.length + rowsWL (kN (some k)) d.includes d : ℕ) : ℚ) * halfUlp (d.c + 2) ∧
+    ∃ ws : Option Amount, ct.surcharge = ws.map (·.rescaleX d.c) ∧
+      |optQ ws - catExactQ selS d k| ≤
+        ((ct.rates.length + rowsWL (kN (some k)) d.includes d : ℕ) : ℚ) * halfUlp (d.c + 2) :=
+  cat_rows_shown d out t hd hcalc ht tx htx k ct hf
+
+/-- every rate-group row: the base is the rounding of a working base within `Wb = rowsWL gN`
+half-units of the exact base of the group (sums add no rounding point); the amount is the rounding
+of a working amount within `1 + |percentage|·Wb` half-units of exact base × percentage; the
+surcharge within `1 + |surcharge percentage|·Wb` of exact base × surcharge percentage — with the
+actual percentages, not their bound of 100 % -/
+theorem calc_tax_group_rows_spec (ret : String → Bool) (d : Doc) (out : Out) (t : Totals) (hd : DocTI ret d)
+    (hcalc : calculate exactOps d = .ok out) (ht : out.totals = some t)
+    (tx : TaxTotal) (htx : t.taxes = some tx) (ct : CatTotal) (hct : ct ∈ tx.cats)
+    (rt : RateTotal) (hrt : rt ∈ ct.rates) :
+    ∃ bw : Amount, presents d.c rt.base bw.toRat ∧
+      |bw.toRat - grpExactQ d ct.code (Spec.C02.keyOfRate rt)| ≤
+        (rowsWL (gN ct.code (Spec.C02.keyOfRate rt)) d.includes d : ℚ) * halfUlp (d.c + 2) ∧
+      (∀ p, rt.percent = some p → ∃ aw : Amount, presents d.c rt.amount aw.toRat ∧
+        |aw.toRat - grpExactQ d ct.code (Spec.C02.keyOfRate rt) * p.amount.toRat| ≤
+          (1 + |p.amount.toRat| * (rowsWL (gN ct.code (Spec.C02.keyOfRate rt)) d.includes d : ℚ)) * halfUlp (d.c + 2)) ∧
+      (∀ p sp sa, rt.percent = some p → rt.surcharge = some (sp, sa) →
+        ∃ sw : Amount, presents d.c sa sw.toRat ∧
+        |sw.toRat - grpExactQ d ct.code (Spec.C02.keyOfRate rt) * sp.amount.toRat| ≤
+          (1 + |sp.amount.toRat| * (rowsWL (gN ct.code (Spec.C02.keyOfRate rt)) d.includes d : ℚ)) * halfUlp (d.c + 2)) :=
+  group_rows_shown d out t hd hcalc ht tx htx ct hct rt hrt
+
+/-- non-vacuity of the two row theorems: `incDoc` (prices including VAT) and `surDoc` (a surcharge)
+are of the class.  `incDoc`: VAT shows 5.68 from the working amount 5.6791 (exact 5.67909147…, weight
+3 groups + 14 carried); its groups: standard base 25.84 (exact (31.7625 − 0.50)/1.21 = 25.83677…),
+amount 5.43 (exact 5.42572…); reduced base 2.41 (exact 2.6664/1.105 = 2.41303…), amount 0.25 (exact
+0.25336…); exempt base 0.67; retained IRPF base 2.41, amount 0.36 (exact 0.36195…).  `surDoc`: base
+23.33 (exact 23.331), amount 4.90 (exact 4.89951), surcharge 1.21 (exact 1.213212) -/
+example : DocTI (retOf incDoc) incDoc ∧ DocTI (retOf surDoc) surDoc ∧
+    rowsWL (kN (some "VAT")) incDoc.includes incDoc = 14 ∧
+    (((calculate exactOps incDoc).toOption.bind (·.totals)).bind (·.taxes)).map
+      (fun tx => tx.cats.map (fun ct => (ct.code, ct.amount, ct.precise))) =
+      some [("VAT", ⟨568, 2⟩, ⟨56791, 4⟩), ("IRPF", ⟨36, 2⟩, ⟨3620, 4⟩)] ∧
+    (((calculate exactOps incDoc).toOption.bind (·.totals)).bind (·.taxes)).map
+      (fun tx => tx.cats.map (fun ct => ct.rates.map (·.base))) =
+      some [[⟨2584, 2⟩, ⟨241, 2⟩, ⟨67, 2⟩], [⟨241, 2⟩]] ∧
+    (((calculate exactOps incDoc).toOption.bind (·.totals)).bind (·.taxes)).map
+      (fun tx => tx.cats.map (fun ct => ct.rates.map (·.amount))) =
+      some [[⟨543, 2⟩, ⟨25, 2⟩, ⟨0, 2⟩], [⟨36, 2⟩]] ∧
+    (((calculate exactOps surDoc).toOption.bind (·.totals)).bind (·.taxes)).map
+      (fun tx => tx.cats.map (fun ct => (ct.amount, ct.surcharge, ct.rates.map (·.base)))) =
+      some [(⟨490, 2⟩, some ⟨121, 2⟩, [⟨2333, 2⟩])] ∧
+    (((calculate exactOps surDoc).toOption.bind (·.totals)).bind (·.taxes)).map
+      (fun tx => tx.cats.map (fun ct => (ct.rates.map (·.amount), ct.rates.map (fun rt => rt.surcharge.map (·.2))))) =
+      some [([⟨490, 2⟩], [some ⟨121, 2⟩])] :=
+  ⟨(inDocI_sound incDoc (by decide)).tax, (inDocI_sound surDoc (by decide)).tax, by decide, by decide, by decide,
+    by decide, by decide, by decide⟩
+
+/-- the two row theorems with the hypothesis and the exact quantities the model driver evaluates
+(`Spec/C01.lean`: `inDocI`; `catAmountQ`, `catSurchargeQ`, `groupBaseQ` over `exactTaxRows`, written
+there without reference to the proof files): every category amount / surcharge and every group base /
+amount / surcharge of the presented summary is within half a minor unit plus its weight × half a unit
+of the working precision of the exact value.  The check holds the real library's tax summary of every
+generated document of the class to these bounds (driver request `taxrows`, counters
+`tax-rows:…`). -/
+theorem tax_rows_decided (d : Doc) (out : Out) (t : Totals) (hcls : inDocI d = true)
+    (hcalc : calculate exactOps d = .ok out) (ht : out.totals = some t)
+    (tx : TaxTotal) (htx : t.taxes = some tx) :
+    (∀ k ct, tx.cats.find? (fun ct => ct.code == k) = some ct →
+      |ct.amount.toRat - catAmountQ d k| ≤
+        halfUlp d.c + ((ct.rates.length + rowsWL (kN (some k)) d.includes d : ℕ) : ℚ) * halfUlp (d.c + 2) ∧
+      ∀ s, ct.surcharge = some s → |s.toRat - catSurchargeQ d k| ≤
+        halfUlp d.c + ((ct.rates.length + rowsWL (kN (some k)) d.includes d : ℕ) : ℚ) * halfUlp (d.c + 2)) ∧
+    (∀ ct ∈ tx.cats, ∀ rt ∈ ct.rates,
+      |rt.base.toRat - groupBaseQ d ct.code (Spec.C02.keyOfRate rt)| ≤
+        halfUlp d.c + (rowsWL (gN ct.code (Spec.C02.keyOfRate rt)) d.includes d : ℚ) * halfUlp (d.c + 2) ∧
+      (∀ p, rt.percent = some p →
+        |rt.amount.toRat - groupBaseQ d ct.code (Spec.C02.keyOfRate rt) * p.amount.toRat| ≤
+          halfUlp d.c + (1 + |p.amount.toRat| * (rowsWL (gN ct.code (Spec.C02.keyOfRate rt)) d.includes d : ℚ)) * halfUlp (d.c + 2)) ∧
+      (∀ p sp sa, rt.percent = some p → rt.surcharge = some (sp, sa) →
+        |sa.toRat - groupBaseQ d ct.code (Spec.C02.keyOfRate rt) * sp.amount.toRat| ≤
+          halfUlp d.c + (1 + |sp.amount.toRat| * (rowsWL (gN ct.code (Spec.C02.keyOfRate rt)) d.includes d : ℚ)) * halfUlp (d.c + 2))) := by
+  have hd := (inDocI_sound d hcls).tax
+  have tri : ∀ (a : Amount) (w q B : ℚ), presents d.c a w → |w - q| ≤ B → |a.toRat - q| ≤ halfUlp d.c + B := by
+    intro a w q B hp hw
+    have h1 := presents_err d.c a w hp
+    have e : a.toRat - q = (a.toRat - w) + (w - q) := by ring
+    rw [e]
+    exact le_trans (abs_add_le _ _) (add_le_add h1 hw)
+  refine ⟨?_, ?_⟩
+  · intro k ct hf
+    obtain ⟨h1, h2, ws, h3, h4⟩ := calc_tax_category_rows_spec (retOf d) d out t hd hcalc ht tx htx k ct hf
+    rw [catExactQ_selP] at h2
+    rw [catExactQ_selS] at h4
+    refine ⟨tri _ _ _ _ h1 h2, ?_⟩
+    intro s hs
+    rw [h3] at hs
+    simp only [Option.map_eq_some_iff] at hs
+    obtain ⟨y, hy, rfl⟩ := hs
+    rw [hy] at h4
+    exact tri _ _ _ _ (presents_rescale d.c y) h4
+  · intro ct hct rt hrt
+    obtain ⟨bw, g1, g2, g3, g4⟩ := calc_tax_group_rows_spec (retOf d) d out t hd hcalc ht tx htx ct hct rt hrt
+    rw [grpExactQ_eq] at g2 g3 g4
+    refine ⟨tri _ _ _ _ g1 g2, ?_, ?_⟩
+    · intro p hp
+      obtain ⟨aw, a1, a2⟩ := g3 p hp
+      exact tri _ _ _ _ a1 a2
+    · intro p sp sa hp hs
+      obtain ⟨sw, a1, a2⟩ := g4 p sp sa hp hs
+      exact tri _ _ _ _ a1 a2
+
+/-! ## tighter weights: the actual percentages
+
+The weights of `calc_eq_spec` / `calc_eq_spec_included` bound every percentage by 100 %.  With the
+actual percentages (`Spec/C01.lean`, rational weights): a document discount / charge that is `p` % of
+the sum weighs `1 + |p|·sumW` (not `1 + sumW`), one that is a percentage of an explicit base weighs 1,
+a fixed amount 0 (`adjRowWQ`); a tax combo carries `|percentage| + |surcharge percentage|` of its
+row's error (`comboWQ`, not the number of combos), the included category `Σ |percentage|` (`kNQ`); an
+advance of `p` % weighs `1 + |p|·twtWQ`, a fixed advance 0 (`advRowWQ`).  The line weights `lineW` and
+the rounding points of the tax summary (`G`, `Gk`) are unchanged. -/
+
+/-- **calc_eq_spec_tight** — `calc_eq_spec_included` with the tight weights (same class `DocCI`,
+which contains `DocC`: `d.includes` may be `none`) -/
+theorem calc_eq_spec_tight (ret : String → Bool) (d : Doc) (out : Out) (t : Totals) (hd : DocCI ret d)
+    (hcalc : calculate exactOps d = .ok out) (ht : out.totals = some t) :
+    ∃ w : Totals, t = roundTotals exactOps d.c w ∧
+      (|w.sum.toRat - (exactQ d).sum| ≤ (sumW d.lines : ℚ) * halfUlp (d.c + 2) ∧
+       |optQ w.discount - (exactQ d).discount| ≤ adjWQ (sumW d.lines) d.discounts * halfUlp (d.c + 2) ∧
+       |optQ w.charge - (exactQ d).charge| ≤ adjWQ (sumW d.lines) d.charges * halfUlp (d.c + 2) ∧
+       |optQ w.taxIncluded - (exactQ d).taxIncluded| ≤ incWQ d (incGroupsT d.includes t) * halfUlp (d.c + 2) ∧
+       |w.total.toRat - (exactQ d).total| ≤ totalWQ d (incGroupsT d.includes t) * halfUlp (d.c + 2) ∧
+       |w.tax.toRat - (exactQ d).tax| ≤ taxWQ d (groupsT t) * halfUlp (d.c + 2) ∧
+       |w.totalWithTax.toRat - (exactQ d).totalWithTax| ≤
+         twtWQ d (groupsT t) (incGroupsT d.includes t) * halfUlp (d.c + 2) ∧
+       |w.payable.toRat - (exactQ d).payable| ≤
+         twtWQ d (groupsT t) (incGroupsT d.includes t) * halfUlp (d.c + 2) ∧
+       |optQ w.advances - (exactQ d).advances| ≤
+         advWQ d (groupsT t) (incGroupsT d.includes t) * halfUlp (d.c + 2) ∧
+       (∀ y, w.due = some y → |y.toRat - (exactQ d).due| ≤
+         dueWQ d (groupsT t) (incGroupsT d.includes t) * halfUlp (d.c + 2))) := by
+  obtain ⟨p, tx, hpre, htx, _, htr⟩ := calculate_unpack d out t hcalc ht
+  have hG : groupsT t = groupsOf tx.cats := by rw [htr]; exact groupsT_round d p tx
+  have hGk : incGroupsT d.includes t = incGroupsOf d.includes tx.cats := by rw [htr]; exact groupsT_round_inc d p tx
+  obtain ⟨w1, w2, w3, w4, w5, w6, w7, w8, w9, w10, _⟩ := working_spec_incQ d p tx hd hpre htx
+  refine ⟨rawTotals exactOps d p tx, htr, ?_⟩
+  rw [hG, hGk]
+  exact ⟨w1, w2, w3, w4, w5, w6, w7, w8, w9, w10⟩
+
+/-- **the explicit bound with the tight weights** — class `DocCI`: every presented total is within
+half a minor unit plus `dueWQ` half-units of the working precision of the exact rational value -/
+theorem tight_explicit_bound (ret : String → Bool) (d : Doc) (out : Out) (t : Totals) (hd : DocCI ret d)
+    (hcalc : calculate exactOps d = .ok out) (ht : out.totals = some t) :
+    let B := halfUlp d.c + dueWQ d (groupsT t) (incGroupsT d.includes t) * halfUlp (d.c + 2)
+    |t.sum.toRat - (exactQ d).sum| ≤ B ∧ |t.total.toRat - (exactQ d).total| ≤ B ∧
+    |t.tax.toRat - (exactQ d).tax| ≤ B ∧ |t.totalWithTax.toRat - (exactQ d).totalWithTax| ≤ B ∧
+    |t.payable.toRat - (exactQ d).payable| ≤ B ∧
+    (∀ x, t.taxIncluded = some x → |x.toRat - (exactQ d).taxIncluded| ≤ B) ∧
+    (∀ x, t.discount = some x → |x.toRat - (exactQ d).discount| ≤ B) ∧
+    (∀ x, t.charge = some x → |x.toRat - (exactQ d).charge| ≤ B) ∧
+    (∀ x, t.advances = some x → |x.toRat - (exactQ d).advances| ≤ B) ∧
+    (∀ x, t.due = some x → |x.toRat - (exactQ d).due| ≤ B) := by
+  intro B
+  obtain ⟨w, htr, b1, b2, b3, bi, b4, b5, b6, b7, b8, b9⟩ := calc_eq_spec_tight ret d out t hd hcalc ht
+  obtain ⟨m1, m2, m3, m4, m5, m6, m7, m8, m9⟩ := weightsQ_le d (groupsT t) (incGroupsT d.includes t)
+  set D := dueWQ d (groupsT t) (incGroupsT d.includes t)
+  have h0 := halfUlp_nonneg (d.c + 2)
+  have hs : ∀ (a : Amount) (q n : ℚ), n ≤ D → |a.toRat - q| ≤ n * halfUlp (d.c + 2) →
+      |(a.rescaleX d.c).toRat - q| ≤ B := by
+    intro a q n hle h
+    have h1 := rescaleX_err a d.c
+    have h2 := mul_le_mul_of_nonneg_right hle h0
+    have e : (a.rescaleX d.c).toRat - q = ((a.rescaleX d.c).toRat - a.toRat) + (a.toRat - q) := by ring
+    rw [e]
+    refine le_trans (abs_add_le _ _) ?_
+    show _ ≤ halfUlp d.c + D * halfUlp (d.c + 2)
+    linarith
+  have ho : ∀ (o : Option Amount) (q n : ℚ), n ≤ D → |optQ o - q| ≤ n * halfUlp (d.c + 2) →
+      ∀ x, o.map (exactOps.rescale · d.c) = some x → |x.toRat - q| ≤ B := by
+    intro o q n hle h x hx
+    simp only [Option.map_eq_some_iff] at hx
+    obtain ⟨y, hy, rfl⟩ := hx
+    rw [hy] at h
+    exact hs y q n hle h
+  rw [htr]
+  refine ⟨hs _ _ _ m1 b1, hs _ _ _ m5 b4, hs _ _ _ m6 b5, hs _ _ _ m7 b6, hs _ _ _ m7 b7,
+    ho _ _ _ m4 bi, ho _ _ _ m2 b2, ho _ _ _ m3 b3, ho _ _ _ m8 b8, ?_⟩
+  intro x hx
+  have hx' : w.due.map (exactOps.rescale · d.c) = some x := hx
+  simp only [Option.map_eq_some_iff] at hx'
+  obtain ⟨y, hy, rfl⟩ := hx'
+  exact hs y _ _ (le_refl _) (b9 y hy)
+
+/-- the same with the hypotheses the model driver evaluates (`inDocI`, `docWeightQ`): the bound the
+check holds the real library's output to, for every generated document of the class -/
+theorem decided_class_bound_tight (d : Doc) (out : Out) (t : Totals) (hcls : inDocI d = true)
+    (hcalc : calculate exactOps d = .ok out) (ht : out.totals = some t) :
+    let B := halfUlp d.c + docWeightQ d * halfUlp (d.c + 2)
+    |t.sum.toRat - (exactQ d).sum| ≤ B ∧ |t.total.toRat - (exactQ d).total| ≤ B ∧
+    |t.tax.toRat - (exactQ d).tax| ≤ B ∧ |t.totalWithTax.toRat - (exactQ d).totalWithTax| ≤ B ∧
+    |t.payable.toRat - (exactQ d).payable| ≤ B ∧
+    (∀ x, t.taxIncluded = some x → |x.toRat - (exactQ d).taxIncluded| ≤ B) ∧
+    (∀ x, t.discount = some x → |x.toRat - (exactQ d).discount| ≤ B) ∧
+    (∀ x, t.charge = some x → |x.toRat - (exactQ d).charge| ≤ B) ∧
+    (∀ x, t.advances = some x → |x.toRat - (exactQ d).advances| ≤ B) ∧
+    (∀ x, t.due = some x → |x.toRat - (exactQ d).due| ≤ B) := by
+  rw [docWeightQ_eq d out t hcalc ht]
+  exact tight_explicit_bound (retOf d) d out t (inDocI_sound d hcls) hcalc ht
+
+/-- **precise_error_lt_unit_tight** — class `DocCI`, tight weight of the amount due below 100:
+every presented total is less than one minor currency unit from the exact rational value -/
+theorem precise_error_lt_unit_tight (ret : String → Bool) (d : Doc) (out : Out) (t : Totals) (hd : DocCI ret d)
+    (hn : dueWQ d (groupsT t) (incGroupsT d.includes t) < 100)
+    (hcalc : calculate exactOps d = .ok out) (ht : out.totals = some t) :
+    let U := 1 / ((pow10 d.c : ℤ) : ℚ)
+    |t.sum.toRat - (exactQ d).sum| < U ∧ |t.total.toRat - (exactQ d).total| < U ∧
+    |t.tax.toRat - (exactQ d).tax| < U ∧ |t.totalWithTax.toRat - (exactQ d).totalWithTax| < U ∧
+    |t.payable.toRat - (exactQ d).payable| < U ∧
+    (∀ x, t.taxIncluded = some x → |x.toRat - (exactQ d).taxIncluded| < U) ∧
+    (∀ x, t.discount = some x → |x.toRat - (exactQ d).discount| < U) ∧
+    (∀ x, t.charge = some x → |x.toRat - (exactQ d).charge| < U) ∧
+    (∀ x, t.advances = some x → |x.toRat - (exactQ d).advances| < U) ∧
+    (∀ x, t.due = some x → |x.toRat - (exactQ d).due| < U) := by
+  intro U
+  have hb := tight_explicit_bound ret d out t hd hcalc ht
+  simp only at hb
+  have hp := p10q_pos d.c
+  have hp2 : ((pow10 (d.c + 2) : ℤ) : ℚ) = ((pow10 d.c : ℤ) : ℚ) * 100 := by
+    unfold pow10; push_cast; ring
+  have hu2 : halfUlp (d.c + 2) = 1 / (200 * ((pow10 d.c : ℤ) : ℚ)) := by
+    unfold halfUlp; rw [hp2]; ring
+  have hu : halfUlp d.c = 1 / (2 * ((pow10 d.c : ℤ) : ℚ)) := rfl
+  have hlt : halfUlp d.c + dueWQ d (groupsT t) (incGroupsT d.includes t) * halfUlp (d.c + 2) < U := by
+    have hpos200 : (0 : ℚ) < 1 / (200 * ((pow10 d.c : ℤ) : ℚ)) := by positivity
+    have h1 := mul_lt_mul_of_pos_right hn hpos200
+    rw [hu, hu2]
+    have : 1 / (2 * ((pow10 d.c : ℤ) : ℚ)) + 100 * (1 / (200 * ((pow10 d.c : ℤ) : ℚ))) = U := by
+      show _ = 1 / ((pow10 d.c : ℤ) : ℚ)
+      field_simp
+      ring
+    linarith
+  obtain ⟨a1, a2, a3, a4, a5, a6, a7, a8, a9, a10⟩ := hb
+  exact ⟨lt_of_le_of_lt a1 hlt, lt_of_le_of_lt a2 hlt, lt_of_le_of_lt a3 hlt, lt_of_le_of_lt a4 hlt,
+    lt_of_le_of_lt a5 hlt, fun x hx => lt_of_le_of_lt (a6 x hx) hlt, fun x hx => lt_of_le_of_lt (a7 x hx) hlt,
+    fun x hx => lt_of_le_of_lt (a8 x hx) hlt, fun x hx => lt_of_le_of_lt (a9 x hx) hlt,
+    fun x hx => lt_of_le_of_lt (a10 x hx) hlt⟩
+
+/-- non-vacuity of the tight theorems, and how much tighter: `incDoc` 20.266 instead of 97 (tax
+5.56 instead of 20, included tax 4.26 instead of 17), `payDoc` 19.1675 instead of 99, `adjDoc` 13.975
+instead of 49, `surDoc` 3.262 instead of 5 -/
+example : inDocI incDoc = true ∧ inDocI payDoc = true ∧ inDocI adjDoc = true ∧ inDocI surDoc = true ∧
+    docWeightQ incDoc = 10133 / 500 ∧ docWeightI incDoc = 97 ∧ docWeightQ payDoc = 7667 / 400 ∧
+    docWeight payDoc = 99 ∧ docWeightQ adjDoc = 559 / 40 ∧ docWeightQ surDoc = 1631 / 500 ∧
+    ((calculate exactOps incDoc).toOption.bind (·.totals)).map
+      (fun t => (taxWQ incDoc (groupsT t), incWQ incDoc (incGroupsT incDoc.includes t))) =
+      some (139 / 25, 213 / 50) := by
+  refine ⟨by decide, by decide, by decide, by decide, by decide +kernel, by decide, by decide +kernel, by decide,
+    by decide +kernel, by decide +kernel, by decide +kernel⟩
 
 /-! ## pinned source shapes (regenerated facts; tools/pin_calc_expect.py) -/
 
